@@ -84,6 +84,10 @@ impl Progress for FileProgress {
         let mut f = self.f.lock().unwrap();
         let _ = writeln!(f, "D\t{fam}\t{chunk}\t{evals}");
     }
+    fn case_failed(&self, fam: &str, chunk: u64, case: &Case) {
+        let mut f = self.f.lock().unwrap();
+        let _ = writeln!(f, "F\t{fam}\t{chunk}\t{}", case.to_string().replace('\n', " "));
+    }
 }
 
 fn failure_json(f: &Failure) -> Value {
@@ -614,9 +618,17 @@ pub fn parent_main(prop: &dyn Property, tier: Tier) -> i32 {
 
     // progress bookkeeping
     let mut started: BTreeSet<(String, u64)> = BTreeSet::new();
+    // cases that failed before the run ended (they matter when the run is killed: its result file is never written)
+    let mut failed_early: Vec<(String, u64, Value)> = Vec::new();
     if let Ok(t) = fs::read_to_string(&prog) {
         for l in t.lines() {
             let p: Vec<&str> = l.split('\t').collect();
+            if p.len() >= 4 && p[0] == "F" {
+                if let Ok(case) = serde_json::from_str::<Value>(p[3]) {
+                    failed_early.push((p[1].to_string(), p[2].parse().unwrap_or(0), case));
+                }
+                continue;
+            }
             if p.len() >= 3 {
                 let key = (p[1].to_string(), p[2].parse().unwrap_or(0));
                 if p[0] == "S" {
@@ -631,6 +643,15 @@ pub fn parent_main(prop: &dyn Property, tier: Tier) -> i32 {
 
     match waited {
         None if stalled => {
+            // what had failed before the run was killed is a result all the same: each such case is
+            // evaluated again in a process of its own
+            for (fam, chunk, case) in failed_early.iter().take(24) {
+                if let SubResult::Fail(fl) | SubResult::Crash(fl) = sub_eval(id, tier, case, true, Duration::from_secs(300)) {
+                    if !known_for(id).has(&fl.sig) && !violations.iter().any(|v| v.failure.sig == fl.sig) {
+                        violations.push(Found { family: fam.clone(), chunk: *chunk, index: 0, case: case.clone(), failure: fl });
+                    }
+                }
+            }
             // locate the case that does not return: trace every chunk that was in flight with a short
             // limit (the others finish), then re-run the last traced case twice on its own
             let mut located = false;
